@@ -277,6 +277,11 @@ func (e *Engine) binop(fr *frame, in ssa.Instruction, op token.Token, t types.Ty
 		if op == token.ADD {
 			return e.strConcat(x, y)
 		}
+		if _, ok := x.(*ChoiceStr); ok {
+			if r, ok := e.strOrder(op, x, y); ok {
+				return r
+			}
+		}
 	case bool:
 		// only == and != are defined on bool, handled above
 	}
@@ -778,6 +783,11 @@ func (e *Engine) rangeIter(x Value, t types.Type) Value {
 		it := &Iter{kind: 1, m: x}
 		if x != nil {
 			it.snap = append(it.snap, x.entries...)
+			if x.flip && len(it.snap) > 1 && e.decide(e.freshVar("ord", 0)) {
+				for i, j := 0, len(it.snap)-1; i < j; i, j = i+1, j-1 {
+					it.snap[i], it.snap[j] = it.snap[j], it.snap[i]
+				}
+			}
 		}
 		return it
 	}
@@ -1038,4 +1048,28 @@ func (e *Engine) ropeASCII(r *Rope) bool {
 	}
 	r.ascii = true
 	return true
+}
+
+// strOrder lifts <, <=, >, >= over (choice) strings.
+func (e *Engine) strOrder(op token.Token, x, y Value) (Value, bool) {
+	var f func(a, b string) bool
+	switch op {
+	case token.LSS:
+		f = func(a, b string) bool { return a < b }
+	case token.LEQ:
+		f = func(a, b string) bool { return a <= b }
+	case token.GTR:
+		f = func(a, b string) bool { return a > b }
+	case token.GEQ:
+		f = func(a, b string) bool { return a >= b }
+	default:
+		return nil, false
+	}
+	if _, ok := x.(*Rope); ok {
+		return nil, false
+	}
+	if _, ok := y.(*Rope); ok {
+		return nil, false
+	}
+	return e.liftBool2(x, y, f), true
 }
